@@ -237,7 +237,15 @@ func (fc *FnCtx) binop(op token.Token, x, y Term, xt, yt, rt types.Type, pos tok
 		return mk(app("tmod", x.S, y.S), SInt, rt)
 	case token.SHL:
 		if c, ok := isConstInt(y); ok && c >= 0 && c < 64 {
-			return wrapInt(mk(fmt.Sprintf("(* %s %s)", x.S, pow2str(int(c))), SInt, rt), rt, true)
+			r := wrapInt(mk(fmt.Sprintf("(* %s %s)", x.S, pow2str(int(c))), SInt, rt), rt, true)
+			w := bits
+			if w == 0 {
+				w = 64
+			}
+			m := new(big.Int).Lsh(maskOf(x, xt), uint(c))
+			m.And(m, widthMask(w))
+			r.Mask = m
+			return r
 		}
 		p := pow2Term(y, 63)
 		return wrapInt(mk(fmt.Sprintf("(ite (> %s 63) 0 (* %s %s))", y.S, x.S, p.S), SInt, rt), rt, true)
@@ -251,6 +259,27 @@ func (fc *FnCtx) binop(op token.Token, x, y Term, xt, yt, rt types.Type, pos tok
 		}
 		return mk(fmt.Sprintf("(ite (> %s 63) 0 (div %s %s))", y.S, x.S, p.S), SInt, rt)
 	case token.AND, token.OR, token.XOR, token.AND_NOT:
+		if op == token.AND {
+			// AND with an arbitrary non-negative constant: sum over the runs of one-bits
+			for _, pair := range [][2]Term{{x, y}, {y, x}} {
+				if c, ok := bigConst(pair[1]); ok && c.Sign() >= 0 && c.BitLen() <= 64 {
+					r := andConst(pair[0], c)
+					r.T = rt
+					m := new(big.Int).And(maskOf(pair[0], xt), c)
+					r.Mask = m
+					return r
+				}
+			}
+		}
+		if op == token.OR || op == token.XOR {
+			mx, my := maskOf(x, xt), maskOf(y, yt)
+			if new(big.Int).And(mx, my).Sign() == 0 {
+				// no common bit can be set: OR and XOR are addition
+				r := mk(app("+", x.S, y.S), SInt, rt)
+				r.Mask = new(big.Int).Or(mx, my)
+				return r
+			}
+		}
 		// constant masks of the form 2^k-1
 		if op == token.AND {
 			for _, pair := range [][2]Term{{x, y}, {y, x}} {
@@ -324,4 +353,74 @@ func (fc *FnCtx) convert(v Term, from, to types.Type, st *State) Term {
 	}
 	fc.unsupp(0, "conversion %s -> %s", shortTypeString(from), shortTypeString(to))
 	return fc.fresh("conv", ts, to)
+}
+
+func widthMask(bits int) *big.Int {
+	m := new(big.Int).Lsh(big.NewInt(1), uint(bits))
+	return m.Sub(m, big.NewInt(1))
+}
+
+// maskOf returns an upper bound of the bits that may be set in an integer term.
+func maskOf(t Term, ty types.Type) *big.Int {
+	if t.Mask != nil {
+		return t.Mask
+	}
+	if c, ok := bigConst(t); ok && c.Sign() >= 0 {
+		return c
+	}
+	if b := basicOf(ty); b != nil {
+		if n, signed := intBits(b); n > 0 && !signed {
+			return widthMask(n)
+		}
+	}
+	return widthMask(64)
+}
+
+func bigConst(t Term) (*big.Int, bool) {
+	s := t.S
+	if len(s) == 0 || len(s) > 24 {
+		return nil, false
+	}
+	for _, c := range s {
+		if c < '0' || c > '9' {
+			return nil, false
+		}
+	}
+	v, ok := new(big.Int).SetString(s, 10)
+	return v, ok
+}
+
+// andConst encodes x & c for a non-negative constant c as a sum over the maximal runs of
+// one-bits of c: for a run [lo,hi) the contribution is ((x div 2^lo) mod 2^(hi-lo)) * 2^lo.
+func andConst(x Term, c *big.Int) Term {
+	if c.Sign() == 0 {
+		return mk("0", SInt, x.T)
+	}
+	var parts []string
+	n := c.BitLen()
+	i := 0
+	for i < n {
+		if c.Bit(i) == 0 {
+			i++
+			continue
+		}
+		lo := i
+		for i < n && c.Bit(i) == 1 {
+			i++
+		}
+		hi := i
+		e := x.S
+		if lo > 0 {
+			e = fmt.Sprintf("(div %s %s)", e, pow2str(lo))
+		}
+		e = fmt.Sprintf("(mod %s %s)", e, pow2str(hi-lo))
+		if lo > 0 {
+			e = fmt.Sprintf("(* %s %s)", e, pow2str(lo))
+		}
+		parts = append(parts, e)
+	}
+	if len(parts) == 1 {
+		return mk(parts[0], SInt, x.T)
+	}
+	return mk("(+ "+strings.Join(parts, " ")+")", SInt, x.T)
 }
